@@ -207,9 +207,6 @@ pub fn test_c07(reg: &Reg, case: &Case, stats: Option<&mut Stats>) -> Verdict {
             return Verdict::Violation("C07|value-under-non-effective-key-consumed".into(), json!({"what": w, "history": hist(&c)}));
         }
     }
-    if c.pred_value.is_none() != c.out.result.is_err() && c.missing.is_empty() && c.extra.is_empty() {
-        return Verdict::Violation("C07|success-differs".into(), json!({"what": c.value.clone().err(), "history": hist(&c)}));
-    }
     Verdict::Ok
 }
 
@@ -336,10 +333,6 @@ pub fn test_c08(reg: &Reg, case: &Case, stats: Option<&mut Stats>) -> Verdict {
         if w.starts_with("examined-but-must-not") {
             return Verdict::Violation("C08|skipped-field-read-the-payload".into(), json!({"what": w, "history": hist(&c)}));
         }
-    }
-    // predicted to fail only because of missing fields, yet it succeeded
-    if !c.pred.reports.is_empty() && c.pred.reports.iter().all(|r| is_missing(r.kind.class()) || matches!(&r.kind, dv_core::interp::PKind::Foreign(dv_core::trace::ProbeData::Missing { .. }))) && c.out.result.is_ok() {
-        return Verdict::Violation("C08|missing-field-accepted".into(), json!({"what": c.value.clone().err(), "history": hist(&c)}));
     }
     Verdict::Ok
 }
@@ -628,11 +621,6 @@ pub fn test_c10(reg: &Reg, case: &Case, stats: Option<&mut Stats>) -> Verdict {
         if a != b {
             return Verdict::Violation("C10|wrong-variant-or-fields".into(), json!({"what": c.value.clone().err(), "history": hist(&c)}));
         }
-    }
-    // resolved to some variant although the tag/string names none
-    let only_dispatch = !c.pred.reports.is_empty() && c.pred.reports.iter().all(|r| enum_locs.contains(&r.loc) && dispatch_class(r.kind.class()));
-    if only_dispatch && c.out.result.is_ok() {
-        return Verdict::Violation("C10|resolved-to-some-variant".into(), json!({"what": c.value.clone().err(), "history": hist(&c)}));
     }
     Verdict::Ok
 }
